@@ -49,6 +49,7 @@ type aggObl struct {
 	Solver    map[string]int
 	Seconds   float64
 	Fail      *OblResult
+	anyReach  bool
 }
 
 type report struct {
@@ -81,10 +82,28 @@ func buildReport(ck *Checker, dis *Discharger, results []*OblResult, prop, tier 
 		a.Instances++
 		a.Solver[r.Res.Solver]++
 		a.Seconds += r.Res.Seconds
+		if r.O.Kind == "vacuity" {
+			// reachability: one satisfiable return path per function suffices
+			if r.Status == "proved" {
+				a.anyReach = true
+			} else if a.Fail == nil {
+				a.Fail = r
+			}
+			continue
+		}
 		if r.Status != "proved" {
 			if a.Status == "proved" || (a.Status == "unknown" && r.Status == "failed") {
 				a.Status = r.Status
 				a.Fail = r
+			}
+		}
+	}
+	for _, a := range rep.agg {
+		if a.Kind == "vacuity" {
+			if a.anyReach {
+				a.Status, a.Fail = "proved", nil
+			} else {
+				a.Status = "vacuous"
 			}
 		}
 	}
